@@ -798,6 +798,7 @@ func (comp *Compiler) Compile(stmts []*gripql.GraphStatement, opts *gdbi.Compile
 				if _, ok := aggNames[a.Name]; ok {
 					return &Pipeline{}, fmt.Errorf("duplicate aggregation name '%s' found; all aggregations must have a unique name", a.Name)
 				}
+				aggNames[a.Name] = nil
 			}
 			aggs := bson.M{}
 			for _, a := range stmt.Aggregate.Aggregations {
